@@ -29,7 +29,7 @@
    through the three command-line tools and through design()). *)
 From Coq Require Import List String Ascii Arith Bool.
 From PC Require Import Base.Codes Comp.Syntax Comp.Compile Comp.Denote Comp.EmitProofs Sys.System Finish.Apply Finish.ApplyProofs Design.ShapeProofs Design.ComposeProofs
-  Design.Designer Design.TemplateProofs Design.DGraph Design.DenoteGraph Design.DenoteTie Design.DenoteSat Design.Results Design.ResultsProofs Design.Loaded Design.LoadedStruct Design.CrossProofs Design.EndToEnd Base.Sexp Comp.WfPil Comp.NameProofs Sys.System Sys.DesSys Sys.SysWfPil Sys.SysDesign Design.RecNames Design.EndToEndNames Design.SysFinish Sys.PrefixProofs Sys.SysNames.
+  Design.Designer Design.TemplateProofs Design.DGraph Design.DenoteGraph Design.DenoteTie Design.DenoteSat Design.Results Design.ResultsProofs Design.Loaded Design.LoadedStruct Design.CrossProofs Design.EndToEnd Base.Sexp Comp.WfPil Comp.NameProofs Sys.System Sys.DesSys Sys.SysWfPil Sys.SysDesign Design.RecNames Design.EndToEndNames Design.SysFinish Sys.PrefixProofs Sys.SysNames Comp.Fix Comp.FixShape Design.FixedEndToEnd Sys.SysFixed Design.BondProofs Design.EqualProofs.
 Import ListNotations.
 
 Theorem C06_finished_bases_consistent_partial : forall t prefix bs vals, base_values t prefix bs = OK vals ->
@@ -273,3 +273,62 @@ Print Assumptions C06_compiled_system_end_to_end_unconditional.
 Theorem C06_names_ok2b_sound : forall f o, names_ok2b f o = true -> names_ok2 f o.
 Proof. exact names_ok2b_sound. Qed.
 Print Assumptions C06_names_ok2b_sound.
+
+(* the chain with a fixed-sequence file in between: compile -> apply any fixed entries -> emit -> load -> arrays -> any
+   fitting string -> records -> finishing the FIXED object succeeds (component level and whole nested systems); the
+   alphabet hypothesis is on the compiled program - every character a fix writes is the code of an intersection *)
+Theorem C06_fixed_component_end_to_end : forall ctr prefix d body c ctr' es,
+  compile_comp ctr prefix d body = OK (c, ctr') ->
+  (forall n b, In (n, b) (c_bases c) -> valid_template (b_const b) = true) ->
+  (forall st, In st body -> stmt_nostar st) -> nostar prefix ->
+  let cf := fix_comp_entries c es in
+  exists p lay g, load_spec (emit_comp cf) pspec0 = OK p /\ seed p false = OK (lay, g) /\
+    (get_constraints p false = DOver \/
+     exists e w s, get_constraints p false = DOk e w s /\
+       forall nts, fits nts e w ->
+         exists a recs, process_results p lay nts = OK a /\ output_records p a = OK recs /\ exists f, apply_comp (table_of recs) cf = OK f).
+Proof. exact fixed_component_end_to_end. Qed.
+Print Assumptions C06_fixed_component_end_to_end.
+
+Theorem C06_fixed_system_end_to_end : forall fs includes ctr basename args fixed lines ctr',
+  compile_top fs includes ctr basename args fixed = OK (lines, ctr') ->
+  (forall o, load_file fs includes 12 ctr basename args "" "." = OK (o, ctr') ->
+     names_ok2 12 o /\ forall c, In c (leaves 12 o) -> forall n b, In (n, b) (c_bases c) -> valid_template (b_const b) = true) ->
+  exists o o' p lay g, load_file fs includes 12 ctr basename args "" "." = OK (o, ctr') /\ fix_all o fixed = OK o' /\
+    load_spec lines pspec0 = OK p /\ seed p false = OK (lay, g) /\
+    (get_constraints p false = DOver \/
+     exists e w s, get_constraints p false = DOk e w s /\
+       forall nts, fits nts e w ->
+         exists a recs, process_results p lay nts = OK a /\ output_records p a = OK recs /\ exists f, apply_obj 12 (table_of recs) o' = OK f).
+Proof. exact fixed_system_end_to_end_loaded. Qed.
+Print Assumptions C06_fixed_system_end_to_end.
+
+(* "every target base pair is Watson-Crick": for every loaded document, either layout, and every designed string that fits
+   the arrays, the two ends of every base pair (x, y) of every structure's target - position x of the structure is
+   position o1 of its strand n1 (walk_sym: strand breaks not counted), likewise y - carry complementary bases in the
+   records of those strands (which the structure's record joins, C06_loaded_designed_string_flows) *)
+Theorem C06_target_pairs_watson_crick : forall ls p lay g nts e w s (so : bool) a,
+  load_spec ls pspec0 = OK p -> seed p so = OK (lay, g) -> get_constraints p so = DOk e w s -> fits nts e w -> process_results p lay nts = OK a ->
+  forall sn names sy len bs x y n1 o1 n2 o2, In (sn, (names, sy, len)) (p_structs p) -> get_bonds sy = OK bs -> In (x, y) bs ->
+  walk_sym p names x = Some (n1, o1) -> walk_sym p names y = Some (n2, o2) ->
+  exists v1 v2 b, afind (r_strands a) n1 = Some v1 /\ afind (r_strands a) n2 = Some v2 /\
+    nth_error v1 o1 = Some (base_char b) /\ nth_error v2 o2 = Some (base_char (bcompl b)).
+Proof. exact loaded_bonds_watson_crick. Qed.
+Print Assumptions C06_target_pairs_watson_crick.
+
+(* "ports bound to one signal agree": an `equal` statement ties its sides position by position (links equal_links); each
+   side resolves to a position of a base sequence and an orientation (kap).  For every loaded document, either layout, every
+   fitting string and every such link whose two base-sequence positions occur in strands, the records of the two base
+   sequences carry the same base at those positions - the complementary one when exactly one side is a complemented view *)
+Theorem C06_equal_ports_agree : forall ls p lay g nts e w s (so : bool) a recs,
+  load_spec ls pspec0 = OK p -> seed p so = OK (lay, g) -> get_constraints p so = DOk e w s -> fits nts e w ->
+  process_results p lay nts = OK a -> output_records p a = OK recs ->
+  forall x y n1 it1 l1 d1 o1 par1 n2 it2 l2 d2 o2 par2, In (x, y) (equal_links p) ->
+  In (n1, (it1, l1, d1)) (p_strands p) -> o1 < l1 -> nth o1 (flat_map (ref_c p (ctbl p)) it1) (DAux 0 0, false) = (fst (kap p so x), par1) ->
+  In (n2, (it2, l2, d2)) (p_strands p) -> o2 < l2 -> nth o2 (flat_map (ref_c p (ctbl p)) it2) (DAux 0 0, false) = (fst (kap p so y), par2) ->
+  exists k1 i1 bn1 t1 v1 k2 i2 bn2 t2 v2 b,
+    fst (kap p so x) = DAux (2 * k1) i1 /\ nth_error (p_bases p) k1 = Some (bn1, t1) /\ In (bn1, v1) recs /\
+    fst (kap p so y) = DAux (2 * k2) i2 /\ nth_error (p_bases p) k2 = Some (bn2, t2) /\ In (bn2, v2) recs /\
+    nth_error v1 i1 = Some (base_char b) /\ nth_error v2 i2 = Some (base_char (app_par (xorb (snd (kap p so x)) (snd (kap p so y))) b)).
+Proof. exact loaded_equal_ports_agree. Qed.
+Print Assumptions C06_equal_ports_agree.
